@@ -71,8 +71,11 @@ Section SVal.
   | SIdx (k : nat) (v : sval)                     (* the k-th component of a tuple-valued v *)
   | SNoneV | SStr (s : string)                    (* None, a string literal *)
   | SName (n : string)                            (* a parameter or a name imported in the function *)
-  | SNewP (cls : string) (pos : list sval) (kw : list (string * sval)).   (* cls(p, ..., k=v, ...) *)
-  Inductive sevent := SCall (target : string) (pos : list sval) (kw : list (string * sval)).
+  | SNewP (cls : string) (pos : list sval) (kw : list (string * sval))    (* cls(p, ..., k=v, ...) *)
+  | SCallA (m : string) (recv : sval) (pos : list sval) (kw : list (string * sval)).   (* recv.m(p, ..., k=v, ...) as a value *)
+  Inductive sevent :=
+  | SCall (target : string) (pos : list sval) (kw : list (string * sval))               (* f(p, ..., k=v, ...) *)
+  | SMethod (recv : sval) (m : string) (pos : list sval) (kw : list (string * sval)).   (* recv.m(p, ..., k=v, ...) *)
 
   (* a function that tests its settings and makes calls: inner nodes are the tests, leaves the calls
      made on that path (TDie: the path ends in die(...)) *)
@@ -80,19 +83,23 @@ Section SVal.
   | TDone (calls : list sevent)
   | TDie (calls : list sevent)
   | TIfNone (v : sval) (yes no : stree)           (* `v is None` *)
-  | TIfEq (v : sval) (lit : string) (yes no : stree).   (* `v == "lit"` *)
+  | TIfEq (v : sval) (lit : string) (yes no : stree)    (* `v == "lit"` *)
+  | TIfTrue (v : sval) (yes no : stree).                (* `if v:` *)
 
   (* running it under a valuation of the tests: (completed normally?, the calls made) *)
-  Fixpoint run_tree (is_none : sval -> bool) (eq_lit : sval -> string -> bool) (t : stree) : bool * list sevent :=
+  Fixpoint run_tree (is_none : sval -> bool) (eq_lit : sval -> string -> bool) (is_true : sval -> bool)
+           (t : stree) : bool * list sevent :=
     match t with
     | TDone c => (true, c)
     | TDie c => (false, c)
-    | TIfNone v y n => if is_none v then run_tree is_none eq_lit y else run_tree is_none eq_lit n
-    | TIfEq v l y n => if eq_lit v l then run_tree is_none eq_lit y else run_tree is_none eq_lit n
+    | TIfNone v y n => if is_none v then run_tree is_none eq_lit is_true y else run_tree is_none eq_lit is_true n
+    | TIfEq v l y n => if eq_lit v l then run_tree is_none eq_lit is_true y else run_tree is_none eq_lit is_true n
+    | TIfTrue v y n => if is_true v then run_tree is_none eq_lit is_true y else run_tree is_none eq_lit is_true n
     end.
 End SVal.
 Arguments SZ {image}. Arguments SOptZ {image}. Arguments SB {image}. Arguments SImg {image}.
 Arguments SAttr {image}. Arguments SCallM {image}. Arguments SNew {image}. Arguments SClosure {image}.
 Arguments SIdx {image}. Arguments SCall {image}. Arguments SNoneV {image}. Arguments SStr {image}.
 Arguments SName {image}. Arguments SNewP {image}. Arguments TDone {image}. Arguments TDie {image}.
-Arguments TIfNone {image}. Arguments TIfEq {image}. Arguments run_tree {image}.
+Arguments TIfNone {image}. Arguments TIfEq {image}. Arguments TIfTrue {image}. Arguments run_tree {image}.
+Arguments SCallA {image}. Arguments SMethod {image}.
